@@ -467,20 +467,27 @@ struct Plan {
     /// reconfiguration sub-leg: max op-sequence length; script length of the 2-threads-after-reconfiguration loom models
     reconf_len: usize,
     len_reconf_mt: usize,
+    /// thorough-only deepening (0 = off): 3 threads x 2 calls; 2x2 at preemption bound 5; 2x3 at bound 4
+    len_3x2: usize,
+    len_2x2_b5: usize,
+    len_2x3_b4: usize,
 }
 
 fn plan(r: &Report) -> Plan {
     let q = |k: &str, quick: usize, thorough: usize| arg_usize(r, k, r.tier().pick(quick, thorough));
     Plan {
         len_2x2: q("--len-2x2", 5, SCRIPT_LEN),
-        len_3x1: q("--len-3x1", 3, 5),
+        len_3x1: q("--len-3x1", 3, SCRIPT_LEN),
         len_cfg: q("--len-cfg", 3, 5),
         sampled: r.args.extra_value("--sampled").and_then(|s| s.parse().ok()).unwrap_or(r.tier().pick(200u64, 0u64)),
         audit_every: r.tier().pick(8u64, 64u64),
-        len_2x3: q("--len-2x3", 0, 4),
-        len_unbounded: q("--len-unbounded", 2, 4),
+        len_2x3: q("--len-2x3", 0, SCRIPT_LEN),
+        len_unbounded: q("--len-unbounded", 2, 5),
         reconf_len: r.args.extra_value("--reconf-len").and_then(|s| s.parse().ok()).unwrap_or(r.tier().pick(5usize, 7usize)),
         len_reconf_mt: q("--len-reconf-mt", 3, 4),
+        len_3x2: q("--len-3x2", 0, 4),
+        len_2x2_b5: q("--len-2x2-b5", 0, SCRIPT_LEN),
+        len_2x3_b4: q("--len-2x3-b4", 0, 4),
     }
 }
 
@@ -540,6 +547,26 @@ fn worker(r: Report, k: u64, n: u64) -> ! {
             }
         }
         PRELUDE.store(0, std::sync::atomic::Ordering::Relaxed);
+    }
+    // (9)-(11) thorough-only deepening: more threads x calls, higher preemption bounds
+    if p.len_3x2 > 0 {
+        for i in (0..pow(p.len_3x2)).filter(|i| mine(*i)) {
+            sw.one((9, i), script_of(i, p.len_3x2), 3, 2, Cfg::Default, false, "3x2");
+        }
+    }
+    if p.len_2x2_b5 > 0 {
+        BOUND.store(5, std::sync::atomic::Ordering::Relaxed);
+        for i in (0..pow(p.len_2x2_b5)).filter(|i| mine(*i)) {
+            sw.one((10, i), script_of(i, p.len_2x2_b5), 2, 2, Cfg::Default, i % p.audit_every == 0, "2x2-bound5");
+        }
+        BOUND.store(PREEMPTION_BOUND, std::sync::atomic::Ordering::Relaxed);
+    }
+    if p.len_2x3_b4 > 0 {
+        BOUND.store(4, std::sync::atomic::Ordering::Relaxed);
+        for i in (0..pow(p.len_2x3_b4)).filter(|i| mine(*i)) {
+            sw.one((11, i), script_of(i, p.len_2x3_b4), 2, 3, Cfg::Default, false, "2x3-bound4");
+        }
+        BOUND.store(PREEMPTION_BOUND, std::sync::atomic::Ordering::Relaxed);
     }
     let a = sw.agg.into_inner();
     let r = sw.r;
@@ -666,7 +693,7 @@ fn main() {
     r.note("loom_models", json!(a.models));
     r.note("loom_executions", json!(a.executions));
     r.note("executions_per_model_min_max", json!([a.min_execs, a.max_execs]));
-    r.note("clock_scripts", json!({"2x2 default cfg": pow(p.len_2x2), "3x1 warn-always": pow(p.len_3x1), "2x2 warn-always + no-warnings": 2 * pow(p.len_cfg), "2x2 sampled full-length": p.sampled, "2x3 default": if p.len_2x3 > 0 { pow(p.len_2x3) } else { 0 }, "2x2 unbounded preemptions": if p.len_unbounded > 0 { pow(p.len_unbounded) } else { 0 }, "one call + reconfiguration, then 2x1": 2 * pow(p.len_reconf_mt)}));
+    r.note("clock_scripts", json!({"2x2 default cfg": pow(p.len_2x2), "3x1 warn-always": pow(p.len_3x1), "2x2 warn-always + no-warnings": 2 * pow(p.len_cfg), "2x2 sampled full-length": p.sampled, "2x3 default": if p.len_2x3 > 0 { pow(p.len_2x3) } else { 0 }, "2x2 unbounded preemptions": if p.len_unbounded > 0 { pow(p.len_unbounded) } else { 0 }, "one call + reconfiguration, then 2x1": 2 * pow(p.len_reconf_mt), "3x2 (bound 3)": if p.len_3x2 > 0 { pow(p.len_3x2) } else { 0 }, "2x2 bound 5": if p.len_2x2_b5 > 0 { pow(p.len_2x2_b5) } else { 0 }, "2x3 bound 4": if p.len_2x3_b4 > 0 { pow(p.len_2x3_b4) } else { 0 }}));
     r.note("script_length", json!({"2x2": p.len_2x2, "3x1": p.len_3x1, "2x2-cfg": p.len_cfg, "2x3": p.len_2x3, "2x2-unbounded": p.len_unbounded, "max": SCRIPT_LEN}));
     r.note("preemption_bound", json!({"default": PREEMPTION_BOUND, "sweep 2x2-unbounded": "none"}));
     r.note("worker_processes", json!(n));
